@@ -1,5 +1,6 @@
 (* C20 — Parallel routines are race-free and schedule-independent; data sharing is safe.
-   Only statements + `exact`; proofs in C20Proofs.v, executable model in C20Model.v.
+   Only statements + `exact`; proofs in C20Proofs.v / C20SplitProofs.v / C20RcProofs.v, executable models in
+   C20Model.v / C20SplitModel.v / C20RcModel.v.
 
    PROVED here (for all thread counts T >= 1, all assignments of iterations to threads, all
    interleavings of the threads admitted by one global lock, all iteration counts):
@@ -10,19 +11,51 @@
        are regenerated from the C++ source on every run (coq/gen/C20Regions.v, tools/translate_omp.py).
      * C20_merge_schedule_independent: `acc := acc (+) local_t` under the lock in ANY order is
        fold (+) over a permutation of the thread results, = the in-order fold in a commutative monoid.
-     * C20_thread_ranges_tile: the static work split of ErrorFunction.inl partitions [0,batches).
+     * C20_thread_ranges_tile: the hand-written formulas of the static work split partition [0,batches).
      * C20_parallel_sum_is_sequential: both together: the merged value equals the sequential fold
        over all batches.
+     * WORK SPLIT OF THE CURRENT SOURCE (was: only compared).  The integer expressions by which
+       ErrorFunctionImpl::eval / ::evalDerivative and NegativeLogLikelihood::evalDerivative compute numThreads,
+       batchesPerThread, leftOver and every worker's [start,end), and by which SimpleNearestNeighbors::getNeighbors
+       addresses the heap cells of (pattern p, SHARK_THREAD_NUM), are translated from the clang AST into
+       coq/gen/C20SplitDefs.v on every run; coq/gen/C20Split.v then holds, per site k, the obligations
+           s<k>_tiles  : forall nb nt, 1 <= nb -> 1 <= nt -> tiles 0 nb (bound nb nt) (lo nb nt) (hi nb nt)
+           s<k>_slices : forall P nt k, 1 <= nt -> tiles2 (cap ..) P nt (merge lo) (merge hi) (slice lo) (slice hi)
+           s<k>_safe   : no divisor is 0, no unsigned subtraction wraps
+           s<k>_nowrap : every intermediate value <= nb + nt  (resp. (P+1)(nt+1)(k+1))
+       proved by the formula-independent script C20SplitProofs.split_solve (zify + Euclidean division
+       equations + lia/nia), and the corollaries s<k>_sum_is_sequential / s<k>_threads_never_share_a_cell.
+       What `tiles` / `tiles2` give is proved here once and for all:
+       C20_tiles_partition, C20_tiles_disjoint_and_cover, C20_tiles_b_decides, C20_split_sum_is_sequential,
+       C20_slices_disjoint_in_bounds, C20_slices_merge_is_union, C20_model_ranges_are_an_instance.
+     * SHARED COPIES (was: only exercised at run time).  C20_shared_copy_safe: in the reference-count
+       machine of C20RcModel.v (atomic increment for a copy; atomic decrement, then a separate free-check,
+       for a destruction; any number of threads; EVERY interleaving of these micro-steps) the counter of a
+       batch always equals the number of existing shared_ptr instances, a batch is never freed while an
+       instance exists nor is anybody about to free it, it is never freed twice, and once the last
+       instance is gone and all started destructions have finished it has been freed exactly once.
+       C20_dataset_ops_are_traces: copy / indexedSubset / destruction of datasets are traces of that machine.
    PARTIAL (named `_partial` where the statement is weaker than the property text):
-     * the theorems are about region SUMMARIES; that a summary lists every access of the C++ region
-       is the translator's job (trusted, described in the evidence), not a theorem;
+     * the theorems are about region SUMMARIES and about the TRANSLATED expressions; that a summary lists
+       every access of the C++ region, and that the translated expression trees are the C++ expressions, is
+       the translator's job (trusted, described in the evidence; the translated split expressions are
+       additionally executed (extracted) against the real code on every run: which batches each worker
+       evaluates, which heap cells each thread writes);
+     * unsigned 64-bit arithmetic is modelled by nat under the generated side obligations s<k>_safe,
+       s<k>_nowrap and the assumption that batch / thread / pattern counts are < 2^20 (the sources cast them to int);
+       an EMPTY dataset (0 batches) is outside the theorems: numThreads = min(threads,0) = 0 and the C++ divides by it;
      * for floating point (+) is not associative: the theorem gives "a reassociation/permutation of
        the sequential sum" (merge_run is a fold over a permutation), the monitors compare at 1e-12
        and exactly on integer-valued data;
-     * the C++/OpenMP memory model, the OpenMP runtime and boost::shared_ptr's atomic reference count
-       (concurrent dataset copies) are only exercised at run time (thread-count comparison, TSan). *)
+     * the reference-count theorem is about the machine: that boost::shared_ptr implements "atomic
+       increment / atomic decrement + free iff the old value was 1" and that nobody destroys a shared_ptr
+       INSTANCE while another thread copies from that same instance (C++ data-race rule; in Shark the source
+       dataset outlives the parallel region) are assumptions; the machine is executed against real Data
+       objects (use_count / expiry after every operation, sequentially and from 2..16 threads);
+     * the C++/OpenMP memory model and the OpenMP runtime are only exercised at run time (thread-count
+       comparison, TSan). *)
 From Coq Require Import List Arith Bool PeanoNat Permutation.
-From SharkV Require Import C20Model C20Proofs.
+From SharkV Require Import C20Model C20Proofs C20SplitModel C20SplitProofs C20RcModel C20RcProofs.
 Import ListNotations.
 
 (* schedule  = valid_schedule r s : s gives each of (length s) >= 1 threads its iterations, in order;
@@ -131,3 +164,110 @@ Theorem C20_parallel_sum_is_sequential :
     res = fold_left op (map f (seq 0 B)) e.
 Proof. intros A op e H1 H2 H3. apply parallel_sum_is_sequential_lemma; auto. Qed.
 Print Assumptions C20_parallel_sum_is_sequential.
+
+(* ================================================================ work split of the current source: what the
+   generated obligations s<k>_tiles / s<k>_slices (coq/gen/C20Split.v) mean.
+
+   tiles lo hi n s e  : the n ranges [s t, e t), t = 0..n-1, are ordered, adjacent, start at lo, end at hi
+   tiles2 cap P T ms me s e : the P ranges [ms p, me p) tile [0,cap) and, for every p, the T ranges
+                        [s p t, e p t) tile [ms p, me p) *)
+
+(* the workers' index lists, concatenated in worker order, are lo, lo+1, .., hi-1: every index exactly once *)
+Theorem C20_tiles_partition :
+  forall lo hi n s e, tiles lo hi n s e ->
+    concat (split_ranges n s e) = seq lo (hi - lo) /\ lo <= hi /\
+    NoDup (concat (split_ranges n s e)) /\
+    (forall i, lo <= i < hi <-> In i (concat (split_ranges n s e))).
+Proof. exact tiles_partition_lemma. Qed.
+Print Assumptions C20_tiles_partition.
+
+Theorem C20_tiles_disjoint_and_cover :
+  forall lo hi n s e, tiles lo hi n s e ->
+    (forall t t' i, t < n -> t' < n -> s t <= i < e t -> s t' <= i < e t' -> t = t') /\
+    (forall i, lo <= i < hi -> exists t, t < n /\ s t <= i < e t) /\
+    (forall t, t < n -> lo <= s t /\ e t <= hi).
+Proof. exact tiles_disjoint_cover_lemma. Qed.
+Print Assumptions C20_tiles_disjoint_and_cover.
+
+(* the boolean procedure used to refute a failed obligation on a concrete input (and by the extracted driver) *)
+Theorem C20_tiles_b_decides :
+  (forall lo hi n s e, tiles_b lo hi n s e = true <-> tiles lo hi n s e) /\
+  (forall cap P T ms me s e, tiles2_b cap P T ms me s e = true <-> tiles2 cap P T ms me s e).
+Proof. exact tiles_b_decides_lemma. Qed.
+Print Assumptions C20_tiles_b_decides.
+
+(* (b)+(c) for ANY split that tiles: the value accumulated under the lock = the sequential sum over all batches *)
+Theorem C20_split_sum_is_sequential :
+  forall (A : Type) (op : A -> A -> A) (e0 : A),
+    (forall a b c, op (op a b) c = op a (op b c)) -> (forall a b, op a b = op b a) -> (forall a, op a e0 = a) ->
+  forall (f : nat -> A) B n s e res, tiles 0 B n s e ->
+    merge_run A op e0 (map (split_partial A op e0 f s e) (seq 0 n)) res ->
+    res = fold_left op (map f (seq 0 B)) e0.
+Proof. exact split_sum_is_sequential. Qed.
+Print Assumptions C20_split_sum_is_sequential.
+
+(* SimpleNearestNeighbors: a thread writing through `p*T + thread number` stays inside the array and inside cells
+   no other (p', t') uses; the cells merged for p afterwards are exactly the cells of (p, 0..T-1) *)
+Theorem C20_slices_disjoint_in_bounds :
+  forall cap P T ms me s e, tiles2 cap P T ms me s e ->
+  forall p t, p < P -> t < T ->
+    (forall i, s p t <= i < e p t -> i < cap /\ ms p <= i < me p) /\
+    (forall p' t' i, p' < P -> t' < T -> s p t <= i < e p t -> s p' t' <= i < e p' t' -> p = p' /\ t = t').
+Proof. exact tiles2_slices_disjoint. Qed.
+Print Assumptions C20_slices_disjoint_in_bounds.
+
+Theorem C20_slices_merge_is_union :
+  forall cap P T ms me s e, tiles2 cap P T ms me s e ->
+    (forall p, p < P -> concat (split_ranges T (s p) (e p)) = seq (ms p) (me p - ms p)) /\
+    concat (map (fun p => concat (split_ranges T (s p) (e p))) (seq 0 P)) = seq 0 cap.
+Proof. exact slices_merge_union_lemma. Qed.
+Print Assumptions C20_slices_merge_is_union.
+
+(* the hand-written formulas of C20Model (C20_thread_ranges_tile) are one instance; hypotheses satisfiable *)
+Theorem C20_model_ranges_are_an_instance :
+  forall B T, 1 <= T -> tiles 0 B T (range_start B T) (range_end B T).
+Proof. exact model_ranges_tile. Qed.
+Print Assumptions C20_model_ranges_are_an_instance.
+
+Example C20_tiles_example : tiles 0 7 3 (range_start 7 3) (range_end 7 3) /\ split_ranges 3 (range_start 7 3) (range_end 7 3) = [[0;1;2];[3;4];[5;6]].
+Proof. split; [apply model_ranges_tile; auto|reflexivity]. Qed.
+Example C20_tiles2_example :
+  tiles2 12 2 3 (fun p => p * 3 * 2) (fun p => p * 3 * 2 + 3 * 2) (fun p t => (p * 3 + t) * 2) (fun p t => (p * 3 + t) * 2 + 2).
+Proof. apply tiles2_b_spec. vm_compute. reflexivity. Qed.
+(* the left-over computed as numBatches mod batchesPerThread (seeded change C20-1) does not tile: 3 batches, 2 threads *)
+Example C20_tiles_counterexample :
+  ~ tiles 0 3 2 (fun t => t * (3 / 2) + Nat.min t (3 mod (3 / 2))) (fun t => (t + 1) * (3 / 2) + Nat.min (t + 1) (3 mod (3 / 2))).
+Proof. apply tiles_b_false. vm_compute. reflexivity. Qed.
+
+(* ================================================================ shared copies of one dataset
+
+   rc_run (rc_init B) acts = Some s : `acts` is an enabled sequence of micro-steps of arbitrarily many threads
+   (copy = atomic increment; destruction = atomic decrement, later the free-check by the same thread), started from
+   B batches owned by one dataset.  live_to b = number of existing shared_ptr instances that point to batch b;
+   about_to_free b = number of threads that have decremented the counter of b from 1 and not yet freed;
+   pending_on b = number of started, unfinished destructions of instances of b. *)
+Theorem C20_shared_copy_safe :
+  forall B acts s, rc_run (rc_init B) acts = Some s ->
+  forall b,
+    rc_count s b = live_to b (rc_live s) /\
+    rc_freed s b <= 1 /\
+    (1 <= live_to b (rc_live s) -> rc_freed s b = 0 /\ about_to_free b (rc_pend s) = 0) /\
+    (b < B -> live_to b (rc_live s) = 0 -> pending_on b (rc_pend s) = 0 -> rc_freed s b = 1) /\
+    (b < B -> live_to b (rc_live s) = 0 -> rc_freed s b + about_to_free b (rc_pend s) = 1) /\
+    (B <= b -> rc_freed s b = 0).
+Proof. exact rc_safe_lemma. Qed.
+Print Assumptions C20_shared_copy_safe.
+
+(* Data copy / indexedSubset / destruction, in any order by any threads, are traces of the machine: the theorem applies *)
+Theorem C20_dataset_ops_are_traces :
+  forall B ops s, d_run (d_init B) ops = Some s ->
+    exists acts, rc_run (rc_init B) acts = Some (ds_rc s).
+Proof. exact d_run_from_init_is_trace. Qed.
+Print Assumptions C20_dataset_ops_are_traces.
+
+(* hypotheses satisfiable: two threads copy a 2-batch dataset; one copy is dropped, the owner drops the original while
+   thread 2 is half way through dropping its copy of batch 0 *)
+Example C20_shared_copy_example :
+  exists s, rc_run (rc_init 2) [ACopy 1 0; ACopy 2 0; ACopy 1 1; ACopy 2 1; ADec 1 2; ADec 0 0; ADec 2 3; AFin 2; AFin 1; AFin 0]
+            = Some s /\ rc_count s 0 = 0 /\ rc_freed s 0 = 1 /\ rc_count s 1 = 3 /\ rc_freed s 1 = 0.
+Proof. exact rc_example_two_threads. Qed.
